@@ -91,6 +91,18 @@ func evalLine(line string) (out string) {
 	switch f[0] {
 	case "E":
 		return evalExpand(unhx(f[1]))
+	case "T":
+		return evalTokens(unhx(f[1]))
+	case "P":
+		return evalTree(unhx(f[1]))
+	case "N":
+		return evalRange(unhx(f[1]))
+	case "K":
+		var l []string
+		if f[1] != "-" {
+			l = unhxl(f[1])
+		}
+		return evalAllowed(l)
 	case "V":
 		ok, _ := spdxexp.ValidateLicenses([]string{unhx(f[1])})
 		if ok {
@@ -367,8 +379,75 @@ func (c *Ctx) run(gen func(*Ctx)) {
 	os.Exit(2)
 }
 
+// auxiliary lines: the internal stages (tokens, tree, allowed-node list, range lookup) of the inputs of this run,
+// reached through the guarded hooks of spdxexp/verif_hooks.go and compared with the model of the same stage.
+// They are not observables of the exported API and never decide a verdict.
+func (c *Ctx) addAuxiliary() {
+	if !hooksAvailable {
+		return
+	}
+	limit := 4000
+	if c.thorough() {
+		limit = 40000
+	}
+	seen := map[string]bool{}
+	var aux []string
+	add := func(l string) {
+		if !seen[l] && len(l) < 6000 {
+			seen[l] = true
+			aux = append(aux, l)
+		}
+	}
+	nE, nK := 0, 0
+	for _, l := range c.order {
+		f := strings.Split(l, " ")
+		switch f[0] {
+		case "V", "S", "X", "O", "R", "Q":
+			if nE < limit && !seen["T "+f[1]] {
+				nE++
+				add("T " + f[1])
+				add("P " + f[1])
+			}
+			if (f[0] == "S" || f[0] == "Q") && len(f) > 2 && nK < limit {
+				if !seen["K "+f[2]] {
+					nK++
+				}
+				add("K " + f[2])
+			}
+		}
+	}
+	if c.prop == "C02" || c.prop == "C11" || c.prop == "C08" {
+		for _, x := range append(append([]string{}, tActive...), tDeprec...) {
+			add("N " + hx(x))
+			add("N " + hx(x+"-or-later"))
+			add("N " + hx(strings.ToLower(x)))
+		}
+	}
+	res := make([]string, len(aux))
+	var wg sync.WaitGroup
+	for w := 0; w < 16; w++ {
+		wg.Add(1)
+		go func(w int) {
+			defer wg.Done()
+			for i := w; i < len(aux); i += 16 {
+				res[i] = evalLine(aux[i])
+			}
+		}(w)
+	}
+	wg.Wait()
+	for i, l := range aux {
+		if _, ok := c.memo[l]; !ok {
+			c.memo[l] = res[i]
+			c.order = append(c.order, l)
+		}
+	}
+}
+
 func (c *Ctx) write(dir string, extra map[string]interface{}) {
 	must(os.MkdirAll(dir, 0o755))
+	if c.prop != "C13" && c.prop != "C14" {
+		c.addAuxiliary()
+	}
 	var cb, ib strings.Builder
 	for _, l := range c.order {
 		cb.WriteString(l + "\n")
